@@ -20,6 +20,10 @@ func anySrc(v ssa.Value, keys ...string) bool {
 		if src[k] {
 			return true
 		}
+		// the generated protobuf getter reads the same field
+		if strings.HasPrefix(k, "field:") && src["call:Get"+strings.TrimPrefix(k, "field:")] {
+			return true
+		}
 	}
 	return false
 }
